@@ -318,7 +318,8 @@ def gen_case(rng):
         pred = ["notin", sorted(rng.sample(SHARED_RO + TEMPS + ["<state>u", "<cond>", "i"], 4))]
     else:
         pred = ["in", sorted(rng.sample(SHARED_RO + TEMPS + ["<state>u", "<cond>", "i"], 4))]
-    return {"dag1": d1, "dag2": d2, "pred": pred, "store": gen_store(rng)}
+    pc = rng.choice([None, None, [["ph", "q"]], {"ph": "nowhere"}])
+    return {"dag1": d1, "dag2": d2, "pred": pred, "store": gen_store(rng), "pc": pc}
 
 
 # ------------------------------------------------------------------ real objects
@@ -388,7 +389,9 @@ def run_fuse(case):
     T.fuse_two_phases = rec_ftp
     try:
         try:
-            fused = T.fuse_two_dags(dag1, dag2, should_disambiguate_name=pred_fn(case["pred"]))
+            # phase_correspondences: the model has no such argument; whatever is passed must make no difference
+            fused = T.fuse_two_dags(dag1, dag2, phase_correspondences=case.get("pc"),
+                                    should_disambiguate_name=pred_fn(case["pred"]))
             out = ["ok"]
         except Exception as ex:  # noqa: BLE001
             fused = None
@@ -438,23 +441,29 @@ def run_phase(dag, key, store):
     interp.evaluate_condition = evaluate_condition
     events = []
     status = ["run"]
-    try:
-        for e in interp.run_single_step():
-            events.append([e.component_id, e.time_id, lang.canon_val(e.t), lang.canon_val(e.state_component)])
-    except FailStepException:
-        status = ["stop", "fail"]
-    except TransitionEvent as t:
-        status = ["stop", "switch", t.next_phase]
-    except lang.UserFunctionError:
-        status = ["crash", "user"]
-    except Exception as ex:  # noqa: BLE001
-        st = current[0]
-        if isinstance(st, Raise) and type(ex) is st.error_condition:
-            status = ["stop", "raise", type(ex).__name__]
-        else:
-            status = ["crash", type(ex).__name__]
+    import warnings
+    with warnings.catch_warnings(record=True) as caught:
+        warnings.simplefilter("always")
+        try:
+            for e in interp.run_single_step():
+                events.append([e.component_id, e.time_id, lang.canon_val(e.t), lang.canon_val(e.state_component)])
+        except FailStepException:
+            status = ["stop", "fail"]
+        except TransitionEvent as t:
+            status = ["stop", "switch", t.next_phase]
+        except lang.UserFunctionError:
+            status = ["crash", "user"]
+        except Exception as ex:  # noqa: BLE001
+            st = current[0]
+            if isinstance(st, Raise) and type(ex) is st.error_condition:
+                status = ["stop", "raise", type(ex).__name__]
+            else:
+                status = ["crash", type(ex).__name__]
     final = {k: lang.canon_val(v) for k, v in interp.context.items()}
-    return {"status": status, "events": events, "store": final}, order
+    # numpy scalars (array elements) do not raise on // 0 and % 0, they warn and yield 0: outside the
+    # integer model of Lang.v (A4); such runs are compared real-against-real only
+    numpy_warning = any(issubclass(w.category, RuntimeWarning) for w in caught)
+    return {"status": status, "events": events, "store": final, "numpy_warning": numpy_warning}, order
 
 
 # ------------------------------------------------------------------ oracle on the real objects
@@ -809,7 +818,7 @@ def model_runs(case, rec, objs):
             continue
         res, order = run_phase(fused, key, case["store"])
         ids = [s.id for s in ph.statements]
-        if len(set(ids)) != len(ids):
+        if len(set(ids)) != len(ids) or res["numpy_warning"]:
             continue
         if not set().union(set(), *[stmt_funcs(d) for d in read_statements(ph.statements)]) <= set(FUNCS):
             continue      # a function symbol was renamed: the test oracle of the model knows every name
@@ -840,7 +849,7 @@ def corpus():
         for f in sorted(os.listdir(d)):
             if f.endswith(".json"):
                 c = json.load(open(os.path.join(d, f)))
-                out.append({k: c[k] for k in ("dag1", "dag2", "pred", "store")})
+                out.append({k: c.get(k) for k in ("dag1", "dag2", "pred", "store", "pc")})
     return out
 
 
@@ -984,6 +993,7 @@ def main(tier):
             continue
         rep.violation({"what": "fuse_two_dags: " + key.replace("_", " "),
                        "dag1": small["dag1"], "dag2": small["dag2"], "pred": small["pred"], "store": small["store"],
+                       "pc": small.get("pc"),
                        "oracle": f2, "real": describe(objs2),
                        "replay": "./check C16 --replay <this file>"})
 
@@ -1044,7 +1054,7 @@ def replay(path):
     if "dag1" not in r:
         print("replay names a broken obligation, no input: %s" % r.get("broken"))
         return 1
-    case = {k: r[k] for k in ("dag1", "dag2", "pred", "store")}
+    case = {k: r.get(k) for k in ("dag1", "dag2", "pred", "store", "pc")}
     rec, objs, fails = evaluate(case)
     real = [f for f in fails if not f["kind"].startswith("_")]
     print(json.dumps({"real": describe(objs), "out": rec["out"], "oracle": real}, indent=1, default=str))
